@@ -123,6 +123,37 @@ __CPROVER_ensures(G.lin_count == 1 ==> G.lin_new == G.lin_old - 2)
 __CPROVER_ensures((G.evt_set >= 1) == (G.lin_count == 1 && G.lin_new == 0))
 /*@BODY scope_reference_dtor*/
 
+/* ---- _nest_receiver::complete: the nested operation's scope reference is released only after its receiver was completed
+ * (so join() cannot complete while a nested operation is still delivering its result) ---- */
+struct nest_op { struct scope_reference scope_; int op_; int receiver_; };
+struct nest_receiver { struct nest_op* op_; };
+static struct nest_op NOP;
+static struct nest_receiver NR;
+struct vf_nest { unsigned inner_destructed, receiver_completed, released_after; _Bool dead; struct nest_op snap; };
+static struct vf_nest GN;
+#define SR_CTOR(p) ((p)->scope_ = NULL)
+#define SR_MOVE(dst, src) ((dst)->scope_ = (src)->scope_, (src)->scope_ = NULL)
+#define SR_DTOR(p) do { VF_P(GN.receiver_completed == 1, "the scope reference held by a nested operation is released only after that operation's receiver has been completed (join cannot overtake a nested completion)"); \
+                        REF.scope_ = (p)->scope_; scope_reference_dtor(&REF); GN.released_after++; } while (0)
+static void EV_inner_destruct(struct nest_op* op) { VF_P(op == &NOP && GN.inner_destructed == 0 && GN.receiver_completed == 0, "the inner operation is destroyed once, before the receiver is completed"); GN.inner_destructed++; }
+static void EV_complete_receiver(struct nest_op* op) {
+  VF_CANARY("nest receiver completion reachable");
+  VF_P(op == &NOP && GN.receiver_completed == 0, "the nested operation's receiver is completed exactly once");
+  VF_P(GN.inner_destructed == 1, "the inner operation is destroyed before the receiver is completed");
+  VF_P(NOP.scope_.scope_ == NULL, "the scope reference was moved out of the operation before the receiver may destroy it");
+  GN.receiver_completed++;
+  struct nest_op f; NOP = f; GN.dead = 1; GN.snap = NOP;    /* the receiver may destroy the nest operation */
+}
+void nest_receiver_complete(struct nest_receiver* self)
+__CPROVER_requires(self == &NR && NR.op_ == &NOP && (NOP.scope_.scope_ == &S || NOP.scope_.scope_ == NULL))
+__CPROVER_requires(G.lin_count == 0 && G.evt_set == 0 && G.my_refs == (NOP.scope_.scope_ != NULL ? 1 : 0) && COUNT(S.opState_) < AS_COUNT_MAX && (NOP.scope_.scope_ != NULL ==> COUNT(S.opState_) >= 1))
+__CPROVER_requires(GN.inner_destructed == 0 && GN.receiver_completed == 0 && GN.released_after == 0 && !GN.dead)
+__CPROVER_assigns(S.opState_, G.lin_old, G.lin_new, G.lin_count, G.evt_set, NOP, REF, GN)
+__CPROVER_ensures(GN.receiver_completed == 1 && GN.inner_destructed == 1 && GN.released_after == 1)
+__CPROVER_ensures((__CPROVER_old(NOP.scope_.scope_) != NULL) == (G.lin_count == 1)) /* the reference is released exactly once */
+__CPROVER_ensures(NOP.scope_.scope_ == GN.snap.scope_.scope_ && NOP.op_ == GN.snap.op_ && NOP.receiver_ == GN.snap.receiver_) /* the operation may be gone after its receiver was completed: never touched afterwards */
+/*@BODY nest_complete*/
+
 /* ---------------- harnesses ---------------- */
 static void h_common(void) {
   S.opState_ = VF_nondet_size_t();
@@ -135,6 +166,7 @@ void h_joined(void) { h_common(); G.my_refs = 0; async_scope_joined(&S); VF_CANA
 void h_join_started(void) { h_common(); G.my_refs = 0; async_scope_join_started(&S); VF_CANARY("after join_started"); }
 void h_use_count(void) { h_common(); G.my_refs = 0; async_scope_use_count(&S); VF_CANARY("after use_count"); }
 void h_scope_or_nullptr(void) { h_common(); G.my_refs = 0; struct async_scope* p = VF_nondet_bool() ? &S : NULL; scope_reference_scope_or_nullptr(p); VF_CANARY("after scope_or_nullptr"); }
+void h_nest_complete(void) { h_common(); NR.op_ = &NOP; NOP.scope_.scope_ = VF_nondet_bool() ? &S : NULL; G.my_refs = VF_nondet_size_t(); GN.inner_destructed = 0; GN.receiver_completed = 0; GN.released_after = 0; GN.dead = 0; nest_receiver_complete(&NR); VF_CANARY("after _nest_receiver::complete"); }
 void h_scope_reference_dtor(void) { h_common(); REF.scope_ = VF_nondet_bool() ? &S : NULL; G.my_refs = VF_nondet_size_t(); scope_reference_dtor(&REF); VF_CANARY("after ~scope_reference"); }
 
 /* ---------------- M4 lemmas over the contracts ---------------- */
